@@ -240,7 +240,8 @@ class DeprecatedOptions:
         def _opt_defined(opt):
             if opt.orig_type == BOOL and opt.str_value != "n":
                 return True
-            elif opt.orig_type in (INT, STRING, HEX, FLOAT) and opt.str_value != "":
+            elif opt.orig_type in (INT, STRING, HEX, FLOAT) and opt.config_string != "":
+                # written to the header (possibly with an empty value), see Kconfig._header_string()
                 return True
             return False
 
